@@ -125,7 +125,9 @@ def draw_step_spec(rng, method, n=1):
     if u < 0.7:
         return dict(kind='default')
     if u < 0.8:
-        return dict(kind='scalar', value=float(10.0 ** rng.uniform(-5, -1.5)))
+        v_ = float(10.0 ** rng.uniform(-5, -1.5))
+        # (one in five with a negative sign: a step is a signed displacement; the quotients are divided by h**n, sign included)
+        return dict(kind='scalar', value=-v_ if int(v_ * 1e9) % 5 == 0 else v_)
     kind = 'min' if (method in ('complex', 'multicomplex') or rng.random() < 0.5) else 'max'
     opts = {}
     given = rng.random() < 0.7         # (else the generator's own default base step EPS**(1/scale(method, n, order)))
